@@ -73,6 +73,10 @@ fn main() {
         c15::hunt_fgmax(args[2].parse().unwrap(), args[3].parse().unwrap(), args[4].parse().unwrap(), args[5].parse().unwrap());
         return;
     }
+    if args[1] == "hunt-lastbyte" {
+        c05::hunt_lastbyte(args[2].parse().unwrap(), args[3].parse().unwrap(), args[4].parse().unwrap());
+        return;
+    }
     if args[1] == "hunt-c05" {
         // fvh hunt-c05 <n> <first> <count>
         c05::hunt(args[2].parse().unwrap(), args[3].parse().unwrap(), args[4].parse().unwrap());
